@@ -23,6 +23,7 @@ CONSTANTS
  DevOrphanAlwaysSkipped = FALSE
  DevNoFlushOnAck = FALSE
  DevTolerateLostIdx = TRUE
+ DevRestoreCountsOrphan = FALSE
 INIT Init
 NEXT Next
 VIEW View
